@@ -1213,7 +1213,7 @@ impl<'a> Sim<'a> {
             }
         }
         // numbers canonical form cannot represent are refused, never silently altered
-        let bad = *self.t.pick(&["1.0", "1e2", "-0", "9007199254740992", "-9007199254740992", "1E0", "0.5", "-0.0", "100000000000000000000", "1.5e300", "9223372036854775808", "2e-1"]);
+        let bad = *self.t.pick(&["1.0", "1e2", "-0", "9007199254740992", "-9007199254740992", "1E0", "0.5", "-0.0", "100000000000000000000", "1.5e300", "9223372036854775808", "2e-1", "18446744073709551615", "18446744073709551000", "9223372036854775807", "-9223372036854775808", "9007199254740993", "-9007199254740993", "1E+2", "-1e0"]);
         let wrapped = match self.t.below(3) {
             0 => bad.to_string(),
             1 => format!("{{\"a\":[1,{bad}]}}"),
@@ -1289,7 +1289,12 @@ impl<'a> Sim<'a> {
         }
         let mut ev: BTreeMap<String, J> = BTreeMap::new();
         ev.insert("type".into(), J::s(ty));
-        ev.insert("content".into(), J::Obj(content));
+        if self.t.chance(9, 10) {
+            ev.insert("content".into(), J::Obj(content));
+        } else {
+            // an event without `content`: redaction has nothing to prune there and adds nothing
+            self.bump("redact.probes-without-content");
+        }
         let top: &[&str] = &[
             "event_id", "room_id", "sender", "state_key", "hashes", "signatures", "depth", "prev_events", "auth_events", "origin_server_ts", "origin", "membership", "prev_state", "unsigned",
             "redacts", "age", "replaces_state", "org.x.top",
